@@ -266,8 +266,29 @@ fn membership(
         s.add("c16.probes.non_member", n_neg);
     }
     // daemon history: sleep until the returned instant, wake with jitter < 60 s, fire, repeat
+    // two daemon runs: one from around the base instant, one that starts a few firings before the
+    // end of a matching day that is followed by a non-matching day (or month): the iterator has to
+    // carry across the gap while continuing from its own previous result
+    let mut daemon_starts: Vec<i64> = Vec::new();
     if budget.daemon_steps > 0 {
-        let start_min = b - 1 - rng.range(0, 3000);
+        daemon_starts.push(b - 1 - rng.range(0, 3000));
+        let b_day0 = b.div_euclid(1440);
+        for day in b_day0..b_day0 + 400 {
+            let (_, mo, d) = cal::civil_from_days(day);
+            let (_, mo2, d2) = cal::civil_from_days(day + 1);
+            let m1 = sets.mon >> mo & 1 == 1 && sets.day_matches(d, cal::weekday_from_days(day));
+            let m2 = sets.mon >> mo2 & 1 == 1 && sets.day_matches(d2, cal::weekday_from_days(day + 1));
+            if m1 && !m2 {
+                // last firing of that day, then back up a few firings' worth of minutes
+                let last_h = 31 - sets.hour.leading_zeros() as i64;
+                let last_m = 63 - sets.min.leading_zeros() as i64;
+                let last = day * 1440 + last_h * 60 + last_m;
+                daemon_starts.push(last - 1 - rng.range(0, 4));
+                break;
+            }
+        }
+    }
+    for start_min in daemon_starts {
         clock.set(Instant::new((start_min.max(0) * 60) as u64, rng.below(1_000_000_000) as u32));
         let e = expr.to_string();
         let steps = budget.daemon_steps;
